@@ -300,6 +300,31 @@ IT_GUARDED = ('modularity_louvain_und', 'modularity_louvain_und_sign', 'communit
               'modularity_finetune_und_sign')
 
 
+def big_sparse_case(r, fn):
+    """131..140 nodes, a few edges among the first and among the LAST eight nodes (indices above 127), every other node
+    isolated (never moved): more than 127 nodes AND more than 127 modules in the result — module vectors / labels held in
+    a narrow integer type wrap. Half-integer weights (not integer-valued: the input-representation layer cannot re-store
+    the matrix in an integer dtype, whose known arithmetic defects would mask a failure). Too large for the model
+    (aggregation is O(n^4)): `_nomodel`, direct oracle only."""
+    n = r.randint(131, 140)
+    W = [[0] * n for _ in range(n)]
+    desc = {}
+    for lo in (0, n - 8):
+        for _ in range(r.randint(3, 5)):
+            i, j = r.sample(range(lo, lo + 8), 2)
+            W[i][j] = W[j][i] = F(r.choice([1, 3, 5, 7]), 2)
+            desc['%d-%d' % (min(i, j), max(i, j))] = float(W[i][j])
+    case = {'fn': fn, 'n': n, 'family': 'big-sparse', 'W': 'zeros(%d,%d) + symmetric edges %s' % (n, n, desc),
+            'gamma': '1', '_W': W, '_g': F(1), 'seed': r.randrange(1 << 30), 'weights': 'dyadic', '_nomodel': True}
+    if ROUTINES[fn].signed:
+        case['qtype'] = 'sta'
+    if fn == 'community_louvain':
+        case.update(kind='modularity', directed=False, ci=None, ci_kind='none')
+    elif ROUTINES[fn].takes_ci:
+        case.update(ci=None, ci_kind='none')
+    return case
+
+
 def jsonable(W):
     return [[int(x) if F(x).denominator == 1 else float(x) for x in row] for row in W]
 
@@ -318,7 +343,13 @@ def make_case(ctx, fn, n=None):
                 extra.update(qtype='sta')
                 if fn == 'modularity_finetune_und_sign':
                     extra.update(ci=None, ci_kind='none')
-            _queue[key].append(_wit(fn, path_inc(44), 7 + len(fn), **extra))
+            # halved weights (1/2, 1, 3/2, ...): same sweeps (the gains scale), but not integer-valued — see big_sparse_case
+            Wp = [[F(x, 2) for x in row] for row in path_inc(44)]
+            c = _wit(fn, Wp, 7 + len(fn), **extra)
+            c['W'] = jsonable(Wp); c['weights'] = 'dyadic'
+            _queue[key].append(c)
+        if getattr(ctx, 'big_sparse', False) and fn in ('modularity_louvain_und', 'modularity_louvain_und_sign', 'community_louvain'):
+            _queue[key].append(big_sparse_case(ctx.rng, fn))
     q = _queue[key]
     if q and n is None:
         return q.pop(0)
@@ -646,15 +677,22 @@ def probtune_stream(case, p):
     return ci, q, steps, line
 
 
+def dec_qf(s):
+    """"0b101/0b11" -> correctly rounded float of the exact fraction"""
+    a, b = s.split('/')
+    return int(a, 0) / int(b, 0)
+
+
 def dec_result(m):
     """model output -> dict"""
     lv = []
     for (moves, labels, q, qd) in m[0]:
         mvs = []
         for (g, (lab, ca, cb)) in moves:
+            # node-to-module / module sums: only ever compared with float arrays (arr_close) -> decoded straight to floats
             mvs.append({'gain': dec_q(g), 'labels': lab,
-                        'ca': (dec_deep(ca[0], dec_q), dec_deep(ca[1], dec_q)),
-                        'cb': (dec_deep(cb[0], dec_q), dec_deep(cb[1], dec_q))})
+                        'ca': (dec_deep(ca[0], dec_qf), dec_deep(ca[1], dec_qf)),
+                        'cb': (dec_deep(cb[0], dec_qf), dec_deep(cb[1], dec_qf))})
         lv.append({'moves': mvs, 'labels': labels, 'q': dec_q(q), 'qd': dec_q(qd)})
     return {'levels': lv, 'ci': m[1], 'q': dec_q(m[2]), 'qd': dec_q(m[3]), 'qstart': dec_q(m[4])}
 
